@@ -125,3 +125,25 @@ def sasa_cap_bound(n):
     uses and reports D*sqrt(n) (0.32 .. 1.0 on the menu) in the evidence; a measured value above 1 is
     reported as a check error, not as an mdtraj violation."""
     return 1.0 / np.sqrt(n)
+
+
+# Snapshot of the documented van-der-Waals / ionic radii table of mdtraj/geometry/sasa.py (nm), taken from the pinned
+# tree.  C13 uses the live table as 'the documented table'; this copy is only the fallback when the (private) name
+# _ATOMIC_RADII cannot be imported, so that a renaming does not turn into a check error.
+TABLE_SNAPSHOT = {
+    "H": 0.12, "He": 0.14, "Li": 0.076, "Be": 0.059, "B": 0.192, "C": 0.17, "N": 0.155, "O": 0.152,
+    "F": 0.147, "Ne": 0.154, "Na": 0.102, "Mg": 0.086, "Al": 0.184, "Si": 0.21, "P": 0.18, "S": 0.18,
+    "Cl": 0.181, "Ar": 0.188, "K": 0.138, "Ca": 0.114, "Sc": 0.211, "Ti": 0.2, "V": 0.2, "Cr": 0.2,
+    "Mn": 0.2, "Fe": 0.2, "Co": 0.2, "Ni": 0.163, "Cu": 0.14, "Zn": 0.139, "Ga": 0.187, "Ge": 0.211,
+    "As": 0.185, "Se": 0.19, "Br": 0.185, "Kr": 0.202, "Rb": 0.303, "Sr": 0.249, "Y": 0.2, "Zr": 0.2,
+    "Nb": 0.2, "Mo": 0.2, "Tc": 0.2, "Ru": 0.2, "Rh": 0.2, "Pd": 0.163, "Ag": 0.172, "Cd": 0.158,
+    "In": 0.193, "Sn": 0.217, "Sb": 0.206, "Te": 0.206, "I": 0.198, "Xe": 0.216, "Cs": 0.167, "Ba": 0.149,
+    "La": 0.2, "Ce": 0.2, "Pr": 0.2, "Nd": 0.2, "Pm": 0.2, "Sm": 0.2, "Eu": 0.2, "Gd": 0.2,
+    "Tb": 0.2, "Dy": 0.2, "Ho": 0.2, "Er": 0.2, "Tm": 0.2, "Yb": 0.2, "Lu": 0.2, "Hf": 0.2,
+    "Ta": 0.2, "W": 0.2, "Re": 0.2, "Os": 0.2, "Ir": 0.2, "Pt": 0.175, "Au": 0.166, "Hg": 0.155,
+    "Tl": 0.196, "Pb": 0.202, "Bi": 0.207, "Po": 0.197, "At": 0.202, "Rn": 0.22, "Fr": 0.348, "Ra": 0.283,
+    "Ac": 0.2, "Th": 0.2, "Pa": 0.2, "U": 0.186, "Np": 0.2, "Pu": 0.2, "Am": 0.2, "Cm": 0.2,
+    "Bk": 0.2, "Cf": 0.2, "Es": 0.2, "Fm": 0.2, "Md": 0.2, "No": 0.2, "Lr": 0.2, "Rf": 0.2,
+    "Db": 0.2, "Sg": 0.2, "Bh": 0.2, "Hs": 0.2, "Mt": 0.2, "Ds": 0.2, "Rg": 0.2, "Cn": 0.2,
+    "Uut": 0.2, "Fl": 0.2, "Uup": 0.2, "Lv": 0.2, "Uus": 0.2, "Uuo": 0.2,
+}
